@@ -376,7 +376,14 @@ struct CDlist : mc::Model
             dlist_for_each_entry(e, hd, lnk) efwd.push_back((int)(e - it));
             dlist_for_each_entry_reverse(e, hd, lnk) erev.push_back((int)(e - it));
             dlist_for_each_entry_safe(e, en, hd, lnk) esafe.push_back((int)(e - it));
+            // cursor idiom: the entry macro's pointer argument is an expression with a side effect
+            vector<int> cur_f;
+            for (struct dlist_head *cur = hd; cur->next != hd && (int)cur_f.size() <= E;)
+                cur_f.push_back((int)(dlist_entry(cur = cur->next, CItem, lnk) - it));
             vector<int> wrev(want.rbegin(), want.rend());
+            if (cur_f != want)
+                mc::violation(mc::fmt("C01.c_dlist.%s.forward_cursor", sigk), "from %s dlist_entry(cur = cur->next, ...) walks %s want %s", el(h).c_str(),
+                              vstr(cur_f).c_str(), vstr(want).c_str());
             if (fwd != want || safe != want || efwd != want || esafe != want)
                 mc::violation(mc::fmt("C01.c_dlist.%s.forward", sigk), "from %s forward %s want %s", el(h).c_str(), vstr(fwd).c_str(), vstr(want).c_str());
             if (rev != wrev || erev != wrev)
@@ -812,7 +819,8 @@ struct SlistModel : mc::Model
         ADD_AFTER,
         POP_FIRST,
         XX_ADD_FIRST,
-        XX_MOVE_FRONT
+        XX_MOVE_FRONT,
+        POP_FIRST_ENTRY // slist_pop_first_entry: the macro's argument is a call with a side effect
     };
     SlistModel() : N(g_nodes()), it(N), ref(H), where(N, -1)
     {
@@ -835,6 +843,8 @@ struct SlistModel : mc::Model
                     ops.push_back({ADD_AFTER, 0, x, a});
         for (int l = 0; l < H; l++)
             ops.push_back({POP_FIRST, l, 0, 0});
+        for (int l = 0; l < H; l++)
+            ops.push_back({POP_FIRST_ENTRY, l, 0, 0});
         for (int x = 0; x < N; x++)
         {
             ops.push_back({XX_ADD_FIRST, 2, x, 0});
@@ -846,7 +856,7 @@ struct SlistModel : mc::Model
     int nops() override { return (int)ops.size(); }
     string opname(int o) override
     {
-        static const char *nm[] = {"slist_add(n,head)", "slist_add(n,after node)", "slist_pop_first", "slist::add_first", "slist::move_front"};
+        static const char *nm[] = {"slist_add(n,head)", "slist_add(n,after node)", "slist_pop_first", "slist::add_first", "slist::move_front", "slist_pop_first_entry"};
         Op &p = ops[o];
         return mc::fmt("%s[list %d, node %d, anchor %d]", nm[p.kind], p.l, p.x, p.a);
     }
@@ -900,6 +910,19 @@ struct SlistModel : mc::Model
                 if (slist_entry(r, SItem, lnk) != &it[w])
                     mc::violation("C01.slist.entry", "slist_entry mismatch");
             }
+            break;
+        }
+        case POP_FIRST_ENTRY:
+        {
+            if (ref[p.l].empty())
+                return false; // the entry form has no "empty" answer
+            SItem *e = slist_pop_first_entry(head(p.l), SItem, lnk);
+            sigk = "pop_first_entry";
+            int w = ref[p.l].front();
+            if (e != &it[w])
+                mc::violation("C01.slist.pop_first_entry.value", "slist_pop_first_entry returned the wrong element, want %d", w);
+            ref[p.l].erase(ref[p.l].begin());
+            where[w] = -1;
             break;
         }
         case XX_ADD_FIRST:
